@@ -31,6 +31,7 @@ func init() {
 		"unicode/utf8.DecodeRune": libDecodeRune,
 		"unicode.IsLetter":      libIsLetter,
 		"math.Log":              libLog,
+		"math.IsNaN":            libIsNaN,
 		"sort.SliceStable":      libSortSlice,
 		"bufio.NewScanner":          libNewScanner,
 		"(*bufio.Scanner).Buffer":   libScannerBuffer,
@@ -309,11 +310,15 @@ func libSortSlice(x *Exec, n *ast.CallExpr, recv *Val, recvExpr ast.Expr, st *St
 	}
 	a := c.freshName("a")
 	b := c.freshName("b")
+	// quantify over absolute array positions A, B in [off, off+len): the comparator then reads (select arr A) directly
+	ra := "(- " + a + " " + off + ")"
+	rb := "(- " + b + " " + off + ")"
+	rng := fmt.Sprintf("(and (<= %s %s) (< %s %s) (< %s (+ %s %s)))", off, a, a, b, b, off, ln)
 	// sortedness: for a < b not less(b, a)
-	c.assumes = append(c.assumes, fmt.Sprintf("(forall ((%s Int) (%s Int)) (=> (and (<= 0 %s) (< %s %s) (< %s %s)) (not %s)))", a, b, a, a, b, b, ln, less(b, a)))
+	c.assumes = append(c.assumes, fmt.Sprintf("(forall ((%s Int) (%s Int)) (=> %s (not %s)))", a, b, rng, less(rb, ra)))
 	if stable {
 		// equal elements keep their relative order: a < b and !less(a,b) and !less(b,a) => p(a) < p(b)
-		c.assumes = append(c.assumes, fmt.Sprintf("(forall ((%s Int) (%s Int)) (=> (and (<= 0 %s) (< %s %s) (< %s %s) (not %s)) (< (%s %s) (%s %s))))", a, b, a, a, b, b, ln, less(a, b), p, a, p, b))
+		c.assumes = append(c.assumes, fmt.Sprintf("(forall ((%s Int) (%s Int)) (=> (and %s (not %s)) (< (%s %s) (%s %s))))", a, b, rng, less(ra, rb), p, ra, p, rb))
 		c.trusted["sort.SliceStable: permutation of the input, ordered by the comparator, equal elements keep their order"] = true
 	} else {
 		c.trusted["sort.Slice: permutation of the input, ordered by the comparator (no stability)"] = true
@@ -447,4 +452,10 @@ func (x *Exec) pkgVar(pkg, name string, ty types.Type) string {
 	n := "glob_" + pkg + "_" + name
 	x.c.declare(n, fmt.Sprintf("(declare-fun %s () %s)", n, x.c.sortOf(ty)))
 	return n
+}
+
+
+func libIsNaN(x *Exec, n *ast.CallExpr, recv *Val, recvExpr ast.Expr, st *State, env *Env) Val {
+	v := x.defaultType(x.eval(n.Args[0], st, env))
+	return Val{T: x.c.accessor("f.nan", v.T), Ty: tBool}
 }
